@@ -88,6 +88,24 @@ type DocSpec struct {
 
 	// Updates: number of incremental updates appended to the base document.
 	Updates int
+
+	// The options below are never drawn by RandomSpec (setting none of them leaves the draws of the
+	// builder untouched); they put structures operations rewrite into a chosen representation.
+
+	// XMPPipelineSet: store the XMP metadata stream under exactly XMPPipeline (nil: unfiltered)
+	// instead of the builder's own choice.
+	XMPPipelineSet bool
+	XMPPipeline    []FilterSpec
+	// XMPKeywords: the packet carries <pdf:Keywords> (joined by "; ") and a <dc:subject> bag of these.
+	XMPKeywords []string
+	// InfoKeywords: /Keywords of the info dictionary (joined by "; "); forces an info dictionary.
+	InfoKeywords []string
+	// OCProperties: 0 none; 1: catalog /OCProperties (direct dictionary, two groups, minimal default
+	// configuration); 2: the dictionary and its /OCGs array are indirect objects, the configuration has
+	// /Name /Order (nested) /ON /OFF /AS /RBGroups /Locked and there is a second configuration in /Configs.
+	OCProperties int
+	// PageLabels: 0 none; 1: /PageLabels with a flat /Nums array; 2: a number tree with /Kids and /Limits.
+	PageLabels int
 }
 
 // RandomSpec draws a specification. size bounds the page count (1..size) and
